@@ -427,9 +427,11 @@ func H_C15_seq_cast() {
 	vResetDecOpts()
 	t := []string{"1", "true", "x", "2.5", ""}[vChoose(5)]
 	var piece string
+	textBesideItems := false // text next to a comment or element inside one element (known finding for the sequence encoder)
 	switch vChoose(7) {
-	case 6: // text that a comment splits in two
-		piece = "12<!--c-->" + t
+	case 6: // text that a comment splits in two, in an element without attributes
+		piece = "<b>12<!--c-->" + t + "</b>"
+		textBesideItems = true
 	case 0:
 		piece = "<!--" + t + "-->"
 	case 1:
@@ -447,11 +449,12 @@ func H_C15_seq_cast() {
 	CastValuesToInt(vChoose(2) == 1)
 	seq := vChoose(2) == 1
 	var mixedSeq bool
+	_ = textBesideItems
 	panicked := vCatch(func() {
 		if seq {
 			ms, err := NewMapXmlSeq(doc, true)
 			if err == nil {
-				if _, isStr := ms["a"].(map[string]interface{})["#text"]; isStr {
+				if _, isStr := ms["a"].(map[string]interface{})["#text"]; isStr || textBesideItems {
 					mixedSeq = true
 				}
 				_, _ = ms.Xml()
